@@ -10,7 +10,10 @@
 //!   steps  = joined by `,`:  c<i> poll caller i once | t tick the executor once | R<i>/Q<i> the peer answers call i with a
 //!            return/error (only possible once call i is on the wire) | U/V stray return/error (reply serial of a call never
 //!            made) | G signal | H<i> signal whose reply_serial is call i's serial | J<i> method call with that reply_serial |
-//!            E end of stream | X read error | Z sleep past the method timeout
+//!            E end of stream | X read error | Z sleep past the method timeout |
+//!            Y / W  the application starts MessageStream::for_match_rule("type='method_return'") / ("type='error'") — the very
+//!            rules under which Connection::new registered its own method-return channel — and polls it once (ok | P | E.. | -
+//!            if that rule was used before); y polls the pending creations again; D drops the streams so created
 //!   after the listed steps the harness drains: tick until idle, poll every unfinished caller, until nothing moves
 //!   (then, with a timeout configured, one `Z` and another drain).
 //!   observation = `<step>=<what happened>` joined by `,` (see `k_mode`).
@@ -380,6 +383,15 @@ struct KState {
     out: Vec<String>,
     /// a dummy call that is never sent: strays answer it
     ghost: Message,
+    /// the application's own streams for the rules `type='method_return'` (0) and `type='error'` (1)
+    hij: [HSlot; 2],
+}
+
+enum HSlot {
+    Unused,
+    Adding(AddFut),
+    Live(zbus::MessageStream),
+    Gone,
 }
 
 impl KState {
@@ -424,11 +436,61 @@ impl KState {
         }
     }
 
+    fn poll_hij(&mut self, w: usize) -> String {
+        match std::mem::replace(&mut self.hij[w], HSlot::Gone) {
+            HSlot::Adding(mut f) => match poll_once(f.as_mut()) {
+                Poll::Pending => {
+                    self.hij[w] = HSlot::Adding(f);
+                    "P".into()
+                }
+                Poll::Ready(Ok(st)) => {
+                    self.hij[w] = HSlot::Live(st);
+                    "ok".into()
+                }
+                Poll::Ready(Err(e)) => format!("E{}", &err_class(&e, 0)[1..]),
+            },
+            other => {
+                self.hij[w] = other;
+                "-".into()
+            }
+        }
+    }
+
     /// returns true if something observable happened
     fn step(&mut self, tok: &str) -> bool {
         let kind = tok.as_bytes()[0] as char;
         let before = snap_ret(&self.conn);
         let (res, moved) = match kind {
+            'Y' | 'W' => {
+                let w = if kind == 'Y' { 0 } else { 1 };
+                if matches!(self.hij[w], HSlot::Unused) {
+                    let rule = if w == 0 { "type='method_return'" } else { "type='error'" };
+                    let conn = self.conn.clone();
+                    let f: AddFut = Box::pin(async move { zbus::MessageStream::for_match_rule(rule, &conn, None).await });
+                    self.hij[w] = HSlot::Adding(f);
+                    let r = self.poll_hij(w);
+                    let moved = r != "P";
+                    (r, moved)
+                } else {
+                    ("-".to_string(), false)
+                }
+            }
+            'y' => {
+                let a = self.poll_hij(0);
+                let b = self.poll_hij(1);
+                let moved = a.starts_with("ok") || a.starts_with('E') || b.starts_with("ok") || b.starts_with('E');
+                (format!("{}/{}", a, b), moved)
+            }
+            'D' => {
+                let mut n = 0;
+                for w in 0..2 {
+                    if matches!(self.hij[w], HSlot::Live(_)) {
+                        self.hij[w] = HSlot::Gone;
+                        n += 1;
+                    }
+                }
+                (format!("d{}", n), n > 0)
+            }
             'c' => {
                 let i: usize = match tok[1..].parse() {
                     Ok(i) if i < self.calls.len() => i,
@@ -515,6 +577,9 @@ impl KState {
                     moved = true;
                 }
             }
+            if self.hij.iter().any(|h| matches!(h, HSlot::Adding(_))) && self.step("y") {
+                moved = true;
+            }
             if moved {
                 idle_rounds = 0;
                 continue;
@@ -572,10 +637,10 @@ fn k_mode(w: &[&str]) -> String {
     sh.lock().unwrap().conn = Some(conn.clone());
     let calls = kinds.iter().enumerate().map(|(i, k)| Some(mk_call(&conn, &sh, *k, i))).collect();
     let first = format!("cap={}", cap_ret(&conn));
-    let mut st = KState { sh, conn, calls, tmo, next_item: 0, out: vec![first], ghost };
+    let mut st = KState { sh, conn, calls, tmo, next_item: 0, out: vec![first], ghost, hij: [HSlot::Unused, HSlot::Unused] };
     if w[3] != "-" {
         for tok in w[3].split(',') {
-            if tok.is_empty() || !"ctRQUVGHJEXZ".contains(tok.chars().next().unwrap()) {
+            if tok.is_empty() || !"ctRQUVGHJEXZYWyD".contains(tok.chars().next().unwrap()) {
                 return "BADCASE".into();
             }
             st.step(tok);
